@@ -23,7 +23,7 @@ M = [
  ('c03-sleeper-load-relaxed', 'C03', 'internal/mu.c', 'while (ATM_LOAD_ACQ (&w->nw.waiting) != 0) { /* acquire load */\n\t\t\t\tnsync_mu_semaphore_p (&w->sem);', 'while (ATM_LOAD (&w->nw.waiting) != 0) { /* acquire load */\n\t\t\t\tnsync_mu_semaphore_p (&w->sem);'),
  ('c03-once-store-relaxed', 'C03', 'internal/once.c', 'ATM_STORE_REL (once, 2);', 'ATM_STORE (once, 2);'),
  ('c03-once-load-relaxed', 'C03', 'internal/once.c', 'void nsync_run_once (nsync_once *once, void (*f) (void)) {\n\tuint32_t o;\n\tIGNORE_RACES_START ();\n\to = ATM_LOAD_ACQ (once);', 'void nsync_run_once (nsync_once *once, void (*f) (void)) {\n\tuint32_t o;\n\tIGNORE_RACES_START ();\n\to = ATM_LOAD (once);'),
- ('c03-note-store-relaxed', 'C03', 'internal/note.c', 'ATM_STORE_REL (&n->notified, 1);', 'ATM_STORE (&n->notified, 1);'),
+ ('c03-note-store-relaxed', 'C03', 'internal/note.c', 'ATM_STORE_REL (&n->notified, 1);\n\t\twhile ((p = nsync_dll_first_ (n->waiters)) != NULL) {', 'ATM_STORE (&n->notified, 1);\n\t\twhile ((p = nsync_dll_first_ (n->waiters)) != NULL) {'),
  ('c03-counter-cas-relaxed', 'C03', 'internal/counter.c', '} while (!ATM_CAS_RELACQ (&c->value, value, value+delta));', '} while (!ATM_CAS (&c->value, value, value+delta));'),
  ('c03-cv-waker-store-relaxed', 'C03', 'internal/cv.c', '\tATM_STORE_REL (&nw->waiting, 0); /* release store */\n\tnsync_mu_semaphore_v (sem);', '\tATM_STORE (&nw->waiting, 0); /* release store */\n\tnsync_mu_semaphore_v (sem);'),
  ('c03-atomic-h-cas-acq-weak', 'C03', 'platform/gcc_new/atomic.h', '__ATOMIC_ACQUIRE, __ATOMIC_RELAXED));\n}\nstatic __inline__ int atm_cas_rel_u32_', '__ATOMIC_RELAXED, __ATOMIC_RELAXED));\n}\nstatic __inline__ int atm_cas_rel_u32_'),
